@@ -358,7 +358,7 @@ func (q *DateRangeQuery) Searcher(i search.Reader, options search.SearcherOption
 	}
 
 	if q.scorer == nil {
-		q.scorer = similarity.ConstantScorer(1)
+		q.scorer = similarity.ConstantScorer(q.boost.Value())
 	}
 
 	return searcher.NewNumericRangeSearcherInt64(i, min, max, inclusiveStart, inclusiveEnd, field,
@@ -542,7 +542,7 @@ func (q *GeoBoundingBoxQuery) Searcher(i search.Reader, options search.SearcherO
 	}
 
 	if q.scorer == nil {
-		q.scorer = similarity.ConstantScorer(1)
+		q.scorer = similarity.ConstantScorer(q.boost.Value())
 	}
 
 	if q.bottomRight[0] < q.topLeft[0] {
@@ -718,7 +718,7 @@ func (q *MatchAllQuery) Boost() float64 {
 }
 
 func (q *MatchAllQuery) Searcher(i search.Reader, options search.SearcherOptions) (search.Searcher, error) {
-	return searcher.NewMatchAllSearcher(i, q.boost.Value(), similarity.ConstantScorer(1), options)
+	return searcher.NewMatchAllSearcher(i, q.boost.Value(), similarity.ConstantScorer(q.boost.Value()), options)
 }
 
 type MatchNoneQuery struct {
